@@ -16,5 +16,5 @@ if args[:1] == ["--features"]:
     feats = args[1].split(","); args = args[2:]
 t = time.time()
 r = m.run_kani(args, features=feats)
-[v.pop("_raw", None) for v in r.values() if isinstance(v, dict)]; r.pop("_raw", None)
+open("/tmp/kani_one_raw.txt","w").write(str(r.get("_raw",""))); [v.pop("_raw", None) for v in r.values() if isinstance(v, dict)]; r.pop("_raw", None)
 print(json.dumps({k: {a: b for a, b in v.items() if a != "log"} if isinstance(v, dict) else v for k, v in r.items()}, indent=1)[:3000]); print("wall %.1fs" % (time.time() - t))
